@@ -1,4 +1,5 @@
 pub mod borrow;
+pub mod exec;
 pub mod multi_gen;
 pub mod populations;
 pub mod registry;
